@@ -30,6 +30,7 @@ def trees():
         R("VMany", items=(L(6), L(6), R("VNonCmp", {"v": 1, "note": "n"}), R("VRich", {"i": 1, "s": "x", "fs": frozenset([1])}, "gen"))),
         R("VInh", {"v": 2}, first=R("VPair", pair=(L(7), L(8))), items=(), one=L(9), extra=R("VAbAc", ab=L(10), ac=None)),
         L(11, "c"),
+        R("VValidated", {"v": 1, "note": "ok"}, "a", kid=R("VValidated", {"v": 2}, kid=L(12))),
     ]
 
 
@@ -84,6 +85,8 @@ def _ops():
         "visit": lambda r, n: Collect().visit(r), "transform-rewrite": lambda r, n: Rewrite().transform(r), "transform-remove": lambda r, n: Remove().transform(r),
         "transform-raises": safe(lambda r, n: Raises().transform(r)), "duplicate": lambda r, n: n.duplicate(),
         "replace": lambda r, n: n.replace(origin=n.origin), "replace-raises": safe(lambda r, n: n.replace(no_such=1)),
+        "replace-rejected-by-subclass-validation": safe(lambda r, n: n.replace(note="bad")),
+        "dataclasses.replace-rejected-by-subclass-validation": safe(lambda r, n: dc.replace(n, note="bad")),
         "dataclasses.replace": lambda r, n: dc.replace(n), "detach": lambda r, n: n.detach(), "detach_self": lambda r, n: n.detach_self(),
         "as_dict": lambda r, n: n.as_dict(), "to_json": lambda r, n: n.to_json(), "to_msgpck": lambda r, n: n.to_msgpck(), "to_yaml": lambda r, n: n.to_yaml(),
         "roundtrip-alive": lambda r, n: type(n).as_obj(n.as_dict()), "roundtrip-after-detach": lambda r, n: (n.detach(), type(n).from_json(n.to_json()))[1],
